@@ -31,6 +31,8 @@ func (where Where) Build(builder Builder) {
 	for idx, expr := range where.Exprs {
 		if v, ok := expr.(OrConditions); !ok || len(v.Exprs) > 1 {
 			if idx != 0 {
+				// the array may be shared with other statements derived from the same handle
+				where.Exprs = append([]Expression(nil), where.Exprs...)
 				where.Exprs[0], where.Exprs[idx] = where.Exprs[idx], where.Exprs[0]
 			}
 			break
